@@ -56,7 +56,12 @@ class Parser(Emitter):
             fn = formulas.get_for(name)
         if fn is None:
             raise formulaserror.NAME
-        result['value'] = fn(*args)
+        try:
+            result['value'] = fn(*args)
+        except formulaserror.XLError as xlerror:
+            # an error raised inside a function is the value of the call, so that
+            # IFERROR, ISERROR, ... around it can observe it
+            result['value'] = xlerror
 
         def valsetter(new_value):
             if new_value is not None:
